@@ -14,6 +14,7 @@ import (
 	"encoding/json"
 	"fmt"
 	"io"
+	"os"
 	"sort"
 	"strconv"
 	"strings"
@@ -130,8 +131,8 @@ type evOp struct {
 
 // ---------------------------------------------------------------- generation
 
-func evP64(v int64) *int64 { return &v }
-func evP32(v int32) *int32 { return &v }
+func evP64(v int64) *int64  { return &v }
+func evP32(v int32) *int32  { return &v }
 func evPS(v string) *string { return &v }
 func evPI(v int) *int       { return &v }
 
@@ -545,9 +546,12 @@ type evSim struct {
 	evictor *qosutil.Evictor
 	agent   *memoryEvictor
 
-	start       time.Time
-	lastCollect time.Time
-	stallLeft   int
+	start         time.Time
+	lastCollect   time.Time
+	stallLeft     int
+	nodeSampleAt  time.Time
+	nodeSampleV   int64
+	hasNodeSample bool
 
 	cur      *evCall
 	calls    []*evCall
@@ -939,6 +943,7 @@ func (s *evSim) collectorStep(now time.Time) {
 		s.stallLeft = 0
 	}
 	s.mc.put(evNodeMeta, t, float64(s.nodeUsed()))
+	s.hasNodeSample, s.nodeSampleAt, s.nodeSampleV = true, t, s.nodeUsed()
 	for _, n := range s.order {
 		m := s.pods[n]
 		if !m.present || !s.running(m) || m.spec.NoMetric {
@@ -1266,6 +1271,7 @@ func (s *evSim) checkRound(now time.Time, views map[string]*evView, tasks []*evT
 	hist := fmt.Sprintf("round %d t=+%ds tasks=%v calls=%v", s.round, int(now.Sub(s.start)/time.Second), tdesc, cdesc)
 	r.Event(hist)
 	r.Sample(hist)
+	s.checkTriggers(now, views, tasks, hist)
 
 	lo, hi := evAcc{}, evAcc{}
 	npend := 0
@@ -1297,22 +1303,22 @@ func (s *evSim) checkRound(now time.Time, views map[string]*evView, tasks []*evT
 		}
 		return out
 	}
-	attempted := map[string]bool{}     // any task, this round
-	succeeded := map[string]bool{}     // acknowledged this round
+	attempted := map[string]bool{}    // any task, this round
+	succeeded := map[string]bool{}    // acknowledged this round
 	perTask := map[string][]*evView{} // attempts of each task in order
 	for i, c := range s.calls {
 		v := views[c.pod]
 		if v == nil {
-			s.fail("victim-not-on-node", "", "%s\ncall #%d evicts %s which was not on the node when the round started", hist, i, c.pod)
+			s.fail("victim-not-on-node", "", "", "%s\ncall #%d evicts %s which was not on the node when the round started", hist, i, c.pod)
 		}
 		t := byF[c.feature]
 		kind := evKind(c.feature)
 		if t == nil {
-			s.fail("evict-without-target", kind, "%s\ncall #%d evicts %s on behalf of %q which has no release target in this round", hist, i, c.pod, c.feature)
+			s.fail("evict-without-target", kind, "", "%s\ncall #%d evicts %s on behalf of %q which has no release target in this round", hist, i, c.pod, c.feature)
 		}
 		// 1. eligibility
 		if !s.allowed(v, c.feature) {
-			s.fail("ineligible-victim", kind, "%s\ncall #%d: %s evicts %s (qos=%q priority=%d eviction-enabled=%q policy=%v): not allowed by the policy (thresholds %s)",
+			s.fail("ineligible-victim", kind, "", "%s\ncall #%d: %s evicts %s (qos=%q priority=%d eviction-enabled=%q policy=%v): not allowed by the policy (thresholds %s)",
 				hist, i, c.feature, c.pod, v.spec.QoS, v.prio, v.spec.Enabled, evStr(v.spec.Policy), s.thrString())
 		}
 		// 2. twice
@@ -1326,15 +1332,15 @@ func (s *evSim) checkRound(now time.Time, views map[string]*evView, tasks []*evT
 			r.Probe("re-evict-after-lost-ack")
 		}
 		if v.pendCert {
-			s.fail("evicted-twice", kind, "%s\ncall #%d: %s evicts %s again, %v after its acknowledged eviction (remembered for %v, no restart since)", hist, i, c.feature, c.pod, now.Sub(v.m.ackAt), evTTL)
+			s.fail("evicted-twice", kind, "", "%s\ncall #%d: %s evicts %s again, %v after its acknowledged eviction (remembered for %v, no restart since)", hist, i, c.feature, c.pod, now.Sub(v.m.ackAt), evTTL)
 		}
 		if attempted[c.pod] && succeeded[c.pod] {
-			s.fail("evicted-twice", kind+"/same-round", "%s\ncall #%d: %s evicts %s which was already evicted in this round", hist, i, c.feature, c.pod)
+			s.fail("evicted-twice", kind+"/same-round", "", "%s\ncall #%d: %s evicts %s which was already evicted in this round", hist, i, c.feature, c.pod)
 		}
 		// 3. target already met?
 		short := shortLo(t)
 		if len(short) == 0 {
-			s.fail("evict-after-target-met", kind, "%s\ncall #%d: %s evicts %s although the release accumulated so far (victims of this round + pods already evicted and still terminating) covers its target: accumulated[%s]=%v",
+			s.fail("evict-after-target-met", kind, clsPendingBehind, "%s\ncall #%d: %s evicts %s although the release accumulated so far (victims of this round + pods already evicted and still terminating) covers its target: accumulated[%s]=%v",
 				hist, i, c.feature, c.pod, t.typ, evAccStr(lo[t.typ]))
 		}
 		// 4. frees nothing of what is still short
@@ -1345,13 +1351,21 @@ func (s *evSim) checkRound(now time.Time, views map[string]*evView, tasks []*evT
 			}
 		}
 		if !useful && len(short) > 0 {
-			s.fail("useless-victim", kind, "%s\ncall #%d: %s evicts %s (class %s, request %d of %s, usage<=%d) which frees nothing of what is still short (%v of %s)",
+			cls := ""
+			if s.candidate(v, c.feature) >= 1 {
+				cls = clsFreesNothing // a regular candidate of the task: nothing in the code looks at what a candidate frees
+			}
+			s.fail("useless-victim", kind, cls, "%s\ncall #%d: %s evicts %s (class %s, request %d of %s, usage<=%d) which frees nothing of what is still short (%v of %s)",
 				hist, i, c.feature, c.pod, v.class, v.req, v.reqRes, v.usedHi, short, t.typ)
 		}
 		// 5. published order
 		for _, q := range perTask[c.feature] {
 			if q != v && evMustPrecede(v, q, t.typ) {
-				s.fail("order", kind, "%s\ncall #%d: %s evicts %s after %s although the published order puts it first (%s vs %s)", hist, i, c.feature, c.pod, q.spec.Name, evOrd(v), evOrd(q))
+				cls := ""
+				if c.feature == fBE && v.evprio != q.evprio {
+					cls = clsBEEvPrio
+				}
+				s.fail("order", kind, cls, "%s\ncall #%d: %s evicts %s after %s although the published order puts it first (%s vs %s)", hist, i, c.feature, c.pod, q.spec.Name, evOrd(v), evOrd(q))
 			}
 		}
 		for _, n := range s.order {
@@ -1366,7 +1380,11 @@ func (s *evSim) checkRound(now time.Time, views map[string]*evView, tasks []*evT
 				}
 			}
 			if qUseful && evMustPrecede(q, v, t.typ) {
-				s.fail("skipped-candidate", kind, "%s\ncall #%d: %s evicts %s but never tried %s which the published order puts first (%s vs %s) and which is neither evicted nor failing",
+				cls := ""
+				if c.feature == fBE && v.evprio != q.evprio {
+					cls = clsBEEvPrio
+				}
+				s.fail("skipped-candidate", kind, cls, "%s\ncall #%d: %s evicts %s but never tried %s which the published order puts first (%s vs %s) and which is neither evicted nor failing",
 					hist, i, c.feature, c.pod, n, evOrd(q), evOrd(v))
 			}
 		}
@@ -1375,17 +1393,17 @@ func (s *evSim) checkRound(now time.Time, views map[string]*evView, tasks []*evT
 		if c.ret {
 			if !c.api {
 				// the executor answered "evicted" without an API request although the model does not know the pod as evicted
-				s.fail("success-without-request", kind, "%s\ncall #%d: Evict(%s) returned success but no eviction request reached the API", hist, i, c.pod)
+				s.fail("success-without-request", kind, "", "%s\ncall #%d: Evict(%s) returned success but no eviction request reached the API", hist, i, c.pod)
 			}
 			if c.outcome != "ok" {
-				s.fail("failed-eviction-reported-as-success", kind, "%s\ncall #%d: Evict(%s) returned success although the API answered %s", hist, i, c.pod, c.outcome)
+				s.fail("failed-eviction-reported-as-success", kind, "", "%s\ncall #%d: Evict(%s) returned success although the API answered %s", hist, i, c.pod, c.outcome)
 			}
 			succeeded[c.pod] = true
 			v.addRelease(lo, hi)
 		} else {
 			r.Probe("evict-call-failed:" + c.outcome)
 			if c.outcome == "ok" {
-				s.fail("successful-eviction-reported-as-failure", kind, "%s\ncall #%d: Evict(%s) returned failure although the API accepted the eviction", hist, i, c.pod)
+				s.fail("successful-eviction-reported-as-failure", kind, "", "%s\ncall #%d: Evict(%s) returned failure although the API accepted the eviction", hist, i, c.pod)
 			}
 		}
 	}
@@ -1416,8 +1434,62 @@ func (s *evSim) checkRound(now time.Time, views map[string]*evView, tasks []*evT
 			if !useful {
 				continue
 			}
-			s.fail("stops-early", evKind(t.feature), "%s\nthe round ends with %s short of its target (accumulated[%s]=%v, short in %v) although candidate %s (%s) was never tried",
+			s.fail("stops-early", evKind(t.feature), clsTimes1000, "%s\nthe round ends with %s short of its target (accumulated[%s]=%v, short in %v) although candidate %s (%s) was never tried",
 				hist, t.feature, t.typ, evAccStr(hi[t.typ]), short, n, evOrd(q))
+		}
+	}
+}
+
+// checkTriggers: a release target may only exist while the configured threshold is exceeded (the amount of the
+// target is taken as computed; only its existence is checked against the documented meaning of the thresholds).
+func (s *evSim) checkTriggers(now time.Time, views map[string]*evView, tasks []*evTask, hist string) {
+	t := s.thr
+	capB := s.cfg.CapMi * evMi
+	win := 2 * time.Duration(s.cfg.CollectS) * time.Second
+	for _, task := range tasks {
+		kind := evKind(task.feature)
+		switch task.feature {
+		case fBE, fUsed:
+			ok := t.Enable && t.MemThr != nil && *t.MemThr >= 0
+			if ok {
+				lower := *t.MemThr - 2 // documented default: threshold - 2
+				if t.MemLower != nil {
+					lower = *t.MemLower
+				}
+				ok = lower < *t.MemThr
+			}
+			if ok && task.feature == fUsed {
+				ok = t.PrioThr != nil
+			}
+			if ok {
+				ok = s.hasNodeSample && !s.nodeSampleAt.Before(now.Add(-win)) && s.nodeSampleV*100 >= *t.MemThr*capB
+			}
+			if !ok {
+				s.fail("target-without-pressure", kind, "", "%s\n%s has a release target although its threshold is not exceeded or its configuration is invalid (node usage sample %d of %d, fresh=%v, thresholds %s)",
+					hist, task.feature, s.nodeSampleV, capB, s.hasNodeSample && !s.nodeSampleAt.Before(now.Add(-win)), s.thrString())
+			}
+		case fAlloc:
+			ok := t.Enable && t.AllocThr != nil && *t.AllocThr >= 0 && t.AllocLower != nil && *t.AllocLower < *t.AllocThr && t.AllocPrioThr != nil && *t.AllocPrioThr <= 7999
+			if !ok {
+				s.fail("target-without-pressure", kind, "", "%s\n%s has a release target although its configuration is invalid (thresholds %s)", hist, task.feature, s.thrString())
+				continue
+			}
+			for _, rn := range evSortedRes(task.target) {
+				aq, has := s.si.node.Status.Allocatable[rn]
+				if !has || aq.IsZero() {
+					continue
+				}
+				var req int64
+				for _, n := range s.order {
+					if v := views[n]; v != nil && v.prio <= *t.AllocPrioThr && v.reqRes == rn {
+						req += v.req
+					}
+				}
+				if req*100 <= *t.AllocThr*aq.Value() {
+					s.fail("target-without-pressure", kind, "", "%s\n%s has a release target for %s although the requests of the pods under its priority threshold (%d) do not exceed %d%% of the allocatable (%d)",
+						hist, task.feature, rn, req, *t.AllocThr, aq.Value())
+				}
+			}
 		}
 	}
 }
@@ -1432,7 +1504,8 @@ const (
 	// a pod already evicted and still terminating contributes to a task's target but the task meets a candidate that
 	// is not evicted before it meets that pod (or never meets it: the pod is not one of the task's candidates)
 	clsPendingBehind = "pending-release-behind-candidate"
-	// a used-memory target while a priority-threshold task (MemoryEvict / MemoryAllocatableEvict) has candidates with usage
+	// a used-memory target while a pod with non-zero usage is evicted (acknowledged), or counted as already evicted and
+	// still terminating, from the candidate list of a priority-threshold task (MemoryEvict / MemoryAllocatableEvict)
 	clsTimes1000 = "usage-counted-times-1000"
 )
 
@@ -1469,9 +1542,6 @@ func (s *evSim) classify(views map[string]*evView, tasks []*evTask) []string {
 					nothing = true
 				}
 			}
-			if t.feature != fBE && hasUsedTarget && v.usedHi > 0 {
-				times = true
-			}
 		}
 		for _, q := range vs {
 			if !q.pendCert {
@@ -1497,6 +1567,18 @@ func (s *evSim) classify(views map[string]*evView, tasks []*evTask) []string {
 			}
 		}
 	}
+	for _, c := range s.calls {
+		if v := views[c.pod]; v != nil && c.ret && c.feature != fBE && hasUsedTarget && v.usedHi > 0 {
+			times = true
+		}
+	}
+	for _, t := range tasks {
+		for _, v := range vs {
+			if t.feature != fBE && hasUsedTarget && v.pendPoss && v.usedHi > 0 && s.candidate(v, t.feature) >= 1 {
+				times = true // its pending release is counted from the same list entry
+			}
+		}
+	}
 	if beEv {
 		out = append(out, clsBEEvPrio)
 	}
@@ -1512,29 +1594,13 @@ func (s *evSim) classify(views map[string]*evView, tasks []*evTask) []string {
 	return out
 }
 
-// evRecorded: the history class under which a violation of this oracle is a recorded finding ("" = none).
-func evRecorded(oracle, detail string) string {
-	switch oracle {
-	case "stops-early":
-		return clsTimes1000
-	case "useless-victim":
-		return clsFreesNothing
-	case "evict-after-target-met":
-		return clsPendingBehind
-	case "skipped-candidate", "order":
-		if strings.HasPrefix(detail, "be") {
-			return clsBEEvPrio
-		}
-	}
-	return ""
-}
-
-// fail reports a violation found in the current round, tagged with the round's history classes. A violation that
-// belongs to a recorded finding does not end the run at once (the later rounds would never be explored: half of all
-// runs meet one in their first evicting round); it is kept and reported at the end of the run, unless a violation
-// outside the recorded findings is met first.
-func (s *evSim) fail(oracle, detail, format string, args ...any) {
-	if cls := evRecorded(oracle, detail); cls != "" {
+// fail reports a violation found in the current round, tagged with the round's history classes. cls names the
+// recorded finding (history class) that explains this particular violation, "" if none does. A violation explained by
+// a recorded finding whose class is present in the round does not end the run at once (the later rounds would never
+// be explored: half of all runs meet one in their first evicting round); it is kept and reported at the end of the
+// run, unless a violation outside the recorded findings is met first.
+func (s *evSim) fail(oracle, detail, cls, format string, args ...any) {
+	if cls != "" && os.Getenv("VERIF_EVICT_HARD") == "" {
 		for _, c := range s.classes {
 			if c == cls {
 				if s.deferred == nil {
